@@ -441,12 +441,21 @@ type C01Conc struct {
 	Workers int   `json:"workers"`
 	PerW    int   `json:"per_worker"`
 	Seed    int64 `json:"seed"`
+	// >0: while the workers look keys up, the key list is replaced over and over, alternately by a list of this
+	// many keys and by the original one; the shared key is in both. Every third lookup is then an invalid stream.
+	Alt int `json:"alt,omitempty"`
 }
 
 func genC01Conc(t *rapid.T) C01Conc {
 	c := C01Conc{Keys: rapid.SampledFrom([]int{3, 50, 800, 3000}).Draw(t, "keys"), IPs: rapid.IntRange(2, 4).Draw(t, "ips"), Workers: rapid.IntRange(2, 12).Draw(t, "workers"),
 		PerW: rapid.IntRange(100, 1500).Draw(t, "perw"), Seed: rapid.Int64Range(1, 1<<40).Draw(t, "seed")}
 	c.Pos = rapid.IntRange(0, c.Keys-1).Draw(t, "pos")
+	if rapid.Bool().Draw(t, "updates") {
+		c.Alt = rapid.SampledFrom([]int{1, c.Keys + 1, c.Keys + 7, max(1, c.Keys-1), max(1, c.Keys/2), c.Keys * 2}).Draw(t, "alt")
+		c.Keys = min(c.Keys, 800)
+		c.Alt = min(c.Alt, 1600)
+		c.Pos = min(c.Pos, c.Keys-1)
+	}
 	return c
 }
 
@@ -457,10 +466,37 @@ func runC01Conc(c C01Conc, info *kit.Info) *kit.Finding {
 	}
 	shared := keys[c.Pos]
 	key := shared.Key()
-	auth := service.NewShadowsocksStreamAuthenticator(kit.NewCipherList(keys), nil, nil, nil)
+	cl := kit.NewCipherList(keys)
+	auth := service.NewShadowsocksStreamAuthenticator(cl, nil, nil, nil)
 	var bad atomic.Pointer[kit.Finding]
 	var wg sync.WaitGroup
 	start := make(chan struct{})
+	stopUpd, updDone := make(chan struct{}), make(chan struct{})
+	updates := 0
+	if c.Alt > 0 {
+		alt := make([]kit.KeySpec, c.Alt)
+		for i := range alt {
+			alt[i] = kit.KeySpec{ID: fmt.Sprintf("alt-%d", i), Cipher: kit.AllCiphers[(i+1)%len(kit.AllCiphers)], Secret: fmt.Sprintf("alt-secret-%d", i)}
+		}
+		alt[c.Pos%c.Alt] = shared
+		go func() {
+			defer close(updDone)
+			<-start
+			for {
+				for _, l := range [][]kit.KeySpec{alt, keys} {
+					select {
+					case <-stopUpd:
+						return
+					default:
+					}
+					cl.Update(kit.CipherEntries(l))
+					updates++
+				}
+			}
+		}()
+	} else {
+		close(updDone)
+	}
 	for w := 0; w < c.Workers; w++ {
 		wg.Add(1)
 		go func(w int) {
@@ -473,6 +509,14 @@ func runC01Conc(c C01Conc, info *kit.Info) *kit.Finding {
 			ip := net.IPv4(203, 0, 113, byte(1+w%c.IPs))
 			<-start
 			for i := 0; i < c.PerW && bad.Load() == nil; i++ {
+				if c.Alt > 0 && i%3 == 2 {
+					id, _, err := auth(kit.NewMemConn(kit.DetBytes(c.Seed+int64(w)*1_000_003+int64(i), 60), &net.TCPAddr{IP: ip, Port: 1000 + i%60000}))
+					if err == nil || id != "" {
+						bad.CompareAndSwap(nil, kit.Violation("auth:unsound", "worker %d (client %v), connection %d: 60 random bytes were answered with id %q, error %v, while the key list was being replaced (lists of %d and %d keys)", w, ip, i, id, err, c.Keys, c.Alt))
+						return
+					}
+					continue
+				}
 				wire := kit.EncodeStream(key, kit.DetBytes(c.Seed+int64(w)*1_000_003+int64(i), key.SaltSize()), append(kit.SocksAddrFor(c01Target, false), "x"...), nil)
 				id, _, err := auth(kit.NewMemConn(wire, &net.TCPAddr{IP: ip, Port: 1000 + i%60000}))
 				if err != nil || id != shared.ID {
@@ -484,10 +528,18 @@ func runC01Conc(c C01Conc, info *kit.Info) *kit.Finding {
 	}
 	close(start)
 	wg.Wait()
+	close(stopUpd)
+	<-updDone
 	if f := bad.Load(); f != nil {
+		if c.Alt > 0 {
+			f.Msg += fmt.Sprintf(" [the key list was replaced %d times meanwhile, alternating between %d and %d keys, the key in both]", updates, c.Keys, c.Alt)
+		}
 		return f
 	}
 	info.NonTrivial, info.Steps = true, c.Workers*c.PerW
+	if c.Alt > 0 {
+		info.Class("with_updates")
+	}
 	return nil
 }
 
